@@ -184,4 +184,44 @@ PROPS["C05"] = {
     "assumptions": ["method and request URI are free of CR/LF (not header APIs)"],
 }
 
+PROPS["C04"] = {
+    "modules": ["Hertz.Props.C04"],
+    "rule": "Connections of 1..4 pipelined requests (GET/POST/PUT/HEAD, HTTP/1.0 with/without keep-alive and 1.1, close) answered by handler programs over "
+            "{status 100..599 incl. 1xx/204/304} x {no body, SetBody, AppendBody/Write, SetBodyStream with known length (also shorter/longer than declared), "
+            "unknown length (chunked, with trailer), io.LimitedReader, hijacked chunked writer with random write/flush/empty-write scripts} x sizes "
+            "0,1,..,4095,4096,4097,8192,10000 on the real Engine over the scripted connection.",
+    "level_text": "Lean model of resp.Write/writeBodyStream/SetContentLength/MustSkipBody/WriteChunk/WriteHexInt and the chunked body writer; theorems for all "
+                  "inputs: hex chunk sizes round-trip, streamed and hijacked-writer bodies decode (strict chunk reader) to exactly the bytes written for every "
+                  "read/write/flush pattern with the remainder untouched, bodiless statuses and HEAD carry no body, Content-Length equals the bytes sent. "
+                  "The real bytes are decoded by the strict Lean reader AND by net/http and compared with the model's framing and body on every case.",
+    "level_note": "Trusted: Lean kernel, translator, harness/driver; header block covered by C05. Hijacked writer on a bodiless response is the documented exclusion. "
+                  "Open: the single end-to-end decode statement joining head and body theorems (checked per case).",
+    "assumptions": ["net/http.ReadResponse as second opinion", "standard transport"],
+}
+
+PROPS["C13"] = {
+        "modules": ["Hertz.Props.C13"],
+        "rule": "Whole operation sequences on the real standard.Conn (hook VerifNewConn) over a scripted in-memory net.Conn: "
+                "(1) every reader op sequence of length <=3 (quick) / <=4 (thorough) over {Peek 1,2,5; Skip 1,3; ReadByte; ReadBinary 2; Read 1,3; Release; Len} "
+                "x all 8 fragmentations of a 4-byte stream + 4 error/EOF endings; (2) every sequence of length <=3/<=4 over 11 ops with sizes "
+                "4095/4096/4097/8193 around the 4 KiB node boundary x 4 fragmentations of an 8202-byte stream; (3) every writer sequence of length <=3/<=4 over "
+                "Malloc/WriteBinary of 0,1,4095,4096,9000 bytes and Flush, on standard.Conn and network.NewWriter, with and without a failing Write; "
+                "(4) random sequences (<=60 / <=200 ops; parser-like, free and hostile modes; sizes 0..20 KiB and 512 KiB+-1, 600000; fragments 1 B..20 KiB; "
+                "errors and zero-length reads injected at any point; 13 initial buffer sizes). Observed per op: returned length, FNV-1a of returned bytes, "
+                "error class, Len(); peeked slices are re-hashed after every op and before every Release/Read; per Flush: bytes the peer received.",
+        "exhaustive_note": "families (1)-(3) are enumerated completely up to the stated length; (4) is sampled",
+        "level_text": "Lean theorems for all operation sequences and all wire scripts (no size bound): the model of standard.Conn never panics or spins, "
+                      "every returned slice is a prefix of the bytes sent and not yet consumed, consuming ops remove exactly what they return "
+                      "(acceptance by the byte-queue spec Spec.Fifo), Len() = buffered-but-unconsumed bytes, non-releasing ops only append to blocks "
+                      "(peek stability), Flush hands the peer exactly the pending bytes in order. Model held to the Go code by differential runs; "
+                      "the spec acceptors (bytes, Len/size/error rules, writer) are evaluated on the implementation's own reports.",
+        "level_note": "Trusted: Lean kernel, harness/driver, the scripted net.Conn (Read never returns more than asked, Write is all-or-error). "
+                      "mcache/sync.Pool recycling is modelled as block identities; real memory reuse is only exercised (re-hash of peeked slices).",
+        "assumptions": ["sizes passed to Peek/Skip/ReadBinary/Malloc are >= 0 (negative sizes are API misuse: Skip(-k) silently grows Len())",
+                        "net.Conn.Write returns n < len(p) only together with an error, and the harness only injects (0, err)",
+                        "mcache.Malloc returns capacity = next power of two (gopkg v0.1.0)"],
+        "timeout": {"quick": 300, "thorough": 1500},
+        "search_timeout": 45,
+    }
+
 NOT_CLAIMED = {}
